@@ -96,11 +96,19 @@ func c07AllValues() map[string]rv.V {
 			m[v.Key()] = v
 		}
 	}
+	for _, al := range c07MoreAlphabets {
+		for _, v := range al {
+			m[v.Key()] = v
+		}
+	}
 	for i := 0; i < 12; i++ {
 		m[rv.I(int64(i)).Key()] = rv.I(int64(i))
 	}
 	return m
 }
+
+// c07MoreAlphabets: the values of the families in the other c07_*.go files (for decoding their replay payloads).
+var c07MoreAlphabets [][]rv.V
 
 // ---- queries --------------------------------------------------------------------------------------
 
